@@ -5,6 +5,8 @@ the model in Model/Ffi.lean.
 -/
 import AskarModel.Model.Ffi
 import AskarModel.Lemmas.Ffi
+import AskarModel.Model.FfiEntry
+import AskarModel.Lemmas.FfiEntry
 
 namespace Askar.Ffi
 open Askar.Store (Err)
@@ -384,5 +386,212 @@ example : (rekeyFfiG true (fun k => k == "K") .raw (.utf8 "K")).toOption = some 
 example : (rekeyFfiG true (fun k => k == "K") .raw (.utf8 "L")).toOption = none := by decide +kernel
 example : (takeCurrentError (orderByRejectG false 5).2).1 = 5 ∧ (takeCurrentError (orderByRejectG true 5).2).1 = 8 := by decide
 example : (getCurrentErrorG false true 3).1 = .segfault ∧ (getCurrentErrorG true true 3).1 = .inputError := by decide
+
+/-! ## The entry-point table (Model/FfiEntry.lean): key operations, store removal / copy / migration,
+    handles closed while in use, loggers -/
+
+/-! ### Synchronous key entry points: malformed arguments are error codes, nothing is written -/
+
+/-- A NULL out-pointer is an `Input` error for every one of the 17 key entry points, whatever the other
+    arguments are (valid or not) and whatever the Rust API would answer; nothing is written, and the
+    error is the one `askar_get_current_error` reports. -/
+theorem key_entry_null_out_is_input {ρ : Type} (e : KeyEntry) (a : SyncArgs) (body : Except Err ρ) (s : ErrSlot)
+    (h : a.outNull = true) : e.run a body s = (.input, none, Code.input.num) := by
+  obtain ⟨cs, hcs⟩ := Lemmas.checks_head e
+  unfold KeyEntry.run
+  rw [Lemmas.runSync_of_checks_err _ a body s .input (by rw [hcs]; exact Lemmas.runChecks_null_out a cs h)]
+  rfl
+
+/-- A NULL key handle in ANY handle position of ANY entry point is an error code (never `Success`), and
+    nothing is written through `out`; the code is `Input` unless an argument tested earlier is malformed
+    too (then it is that argument's code: `Unsupported` / `Unexpected` for the algorithm string). -/
+theorem key_entry_null_handle_is_error {ρ : Type} (e : KeyEntry) (a : SyncArgs) (body : Except Err ρ) (s : ErrSlot)
+    (i : Nat) (hi : i < e.handles) (hn : a.handlesNull.getD i true = true) :
+    (e.run a body s).1 ≠ .success ∧ (e.run a body s).2.1 = none ∧
+    ((e.run a body s).1 = .input ∨ (e.run a body s).1 = .unsupported ∨ (e.run a body s).1 = .unexpected) := by
+  obtain ⟨y, hy⟩ := Lemmas.runChecks_fails a e.checks (.handle i) (Lemmas.handle_mem e i hi) ⟨.input, by simp only [Check.run, hn]; rfl⟩
+  unfold KeyEntry.run
+  rw [Lemmas.runSync_of_checks_err _ a body s y hy]
+  refine ⟨Lemmas.ofErr_ne_success y, rfl, ?_⟩
+  rcases Lemmas.runChecks_err_kind a _ y hy with rfl | rfl | rfl <;> simp [Code.ofErr]
+
+/-- Equivalence with the Rust API: when every argument passes the checks (out-pointer and handles not
+    NULL, a known algorithm name, lengths not negative), the C entry point reports exactly what the Rust
+    call reports on the same arguments — `Success` with its value written through `out`, or the code of
+    its `ErrorKind` with nothing written and the error recorded for `askar_get_current_error`. -/
+theorem key_entry_equals_rust {ρ : Type} (e : KeyEntry) (a : SyncArgs) (body : Except Err ρ) (s : ErrSlot)
+    (hw : a.WellFormed e.handles) :
+    e.run a body s = match body with
+      | .ok v => (.success, some v, s)
+      | .error x => (Code.ofErr x, none, (Code.ofErr x).num) :=
+  Lemmas.runSync_of_checks_ok e.checks a body s (Lemmas.wellFormed_checks e a hw) hw.2.2.2.1
+
+/-- `out` is written exactly when the call returns `Success` (any list of checks, any arguments). -/
+theorem sync_out_written_iff_success {ρ : Type} (cs : List Check) (a : SyncArgs) (body : Except Err ρ) (s : ErrSlot) :
+    (runSync cs a body s).2.1.isSome = true ↔ (runSync cs a body s).1 = .success := by
+  unfold runSync
+  cases hc : runChecks a cs with
+  | error x => simp [setLastError, Lemmas.ofErr_ne_success]
+  | ok u =>
+    cases hb : a.bufNeg
+    · cases body <;> simp [setLastError, Lemmas.ofErr_ne_success]
+    · simp [setLastError]
+
+/-- Every error return is retrievable: the slot holds the returned code; a `Success` leaves the slot alone. -/
+theorem sync_error_recorded {ρ : Type} (cs : List Check) (a : SyncArgs) (body : Except Err ρ) (s : ErrSlot) :
+    ((runSync cs a body s).1 ≠ .success → (takeCurrentError (runSync cs a body s).2.2).1 = (runSync cs a body s).1.num) ∧
+    ((runSync cs a body s).1 = .success → (runSync cs a body s).2.2 = s) := by
+  unfold runSync
+  cases hc : runChecks a cs with
+  | error x => simp [setLastError, takeCurrentError, Lemmas.ofErr_ne_success]
+  | ok u =>
+    cases hb : a.bufNeg
+    · cases body <;> simp [setLastError, takeCurrentError, Lemmas.ofErr_ne_success]
+    · simp [setLastError, takeCurrentError]
+
+/-- A negative `ByteBuffer` length (which the header forbids) is answered with an error code: the panic
+    of `as_slice` is caught by `catch_err!` and reported as `Unexpected`; nothing is written. -/
+theorem key_entry_negative_length_is_unexpected {ρ : Type} (e : KeyEntry) (a : SyncArgs) (body : Except Err ρ) (s : ErrSlot)
+    (hc : runChecks a e.checks = .ok ()) (hb : a.bufNeg = true) :
+    e.run a body s = (.unexpected, none, Code.unexpected.num) := by
+  simp [KeyEntry.run, runSync, hc, hb, setLastError]
+
+/-- the table has all 17 entry points, each tests the out-pointer first -/
+example : KeyEntry.all.length = 17 ∧ KeyEntry.all.all (fun e => e.checks.head? == some .outPtr) = true := by decide
+/-- order of validation as in the source: `unwrap_key` loads the handle before it parses the algorithm,
+    `convert` parses first -/
+example : (KeyEntry.unwrapKey.run (ρ := Unit) { alg := .unknown, handlesNull := [true] } (.ok ()) 0).1 = .input := by decide
+example : (KeyEntry.convert.run (ρ := Unit) { alg := .unknown, handlesNull := [true] } (.ok ()) 0).1 = .unsupported := by decide
+example : (KeyEntry.aeadGetPadding.run (ρ := Nat) { msgLenNeg := true, handlesNull := [false] } (.ok 0) 3) = (.input, none, 5) := by decide
+/-- the hypotheses of `key_entry_equals_rust` are satisfiable and the result depends on the body -/
+example : (KeyEntry.deriveEcdh1pu.run (ρ := Nat) { handlesNull := [false, false, false] } (.ok 7) 3) = (.success, some 7, 3) := by decide
+example : (KeyEntry.aeadDecrypt.run (ρ := Nat) { handlesNull := [false] } (.error .encryption) 3) = (.encryption, none, 4) := by decide
+example : algArg (.utf8 "a256gcm") = .known ∧ algArg .null = .unknown ∧ algArg (.invalid "") = .unknown := by decide +kernel
+example : encryptedLayout "a256cbchs512" 17 0 = (32, 64, 80) ∧ wrappedLayout "a128kw" "a256gcm" 0 = (40, 40, 40) := by decide +kernel
+
+/-! ### Asynchronous entry points (`askar_store_remove`, `askar_store_copy`, `askar_migrate_indy_sdk`,
+    `askar_store_provision`, `askar_store_open`) -/
+
+/-- A NULL among the mandatory strings (the URI; for the migration any of spec_uri / wallet_name /
+    wallet_key / kdf_level) is an `Input` return code and the callback is never invoked. -/
+theorem async_missing_string_is_input_no_callback {ρ : Type} (e : AsyncEntry) (cbGiven : Bool) (parse : String → Except Err Unit)
+    (strs : List CStr) (method : CStr) (fate : TaskFate ρ) (h : CStr.null ∈ strs.take e.required) :
+    e.run cbGiven parse strs method fate = (.input, []) := by
+  cases cbGiven <;> simp [AsyncEntry.run, AsyncEntry.decode, runEntry, Lemmas.decodeRequired_null _ h, Code.ofErr]
+
+/-- Without a callback: `Input`, and nothing is started. -/
+theorem async_missing_callback_is_input {ρ : Type} (e : AsyncEntry) (parse : String → Except Err Unit)
+    (strs : List CStr) (method : CStr) (fate : TaskFate ρ) : e.run false parse strs method fate = (.input, []) := by
+  simp [AsyncEntry.run, runEntry]
+
+/-- A key method string that does not parse is that error's code, and no callback. -/
+theorem async_bad_method_is_error_no_callback {ρ : Type} (e : AsyncEntry) (parse : String → Except Err Unit)
+    (strs : List CStr) (m : String) (x : Err) (fate : TaskFate ρ) (hm : e.hasMethod = true)
+    (hs : decodeRequired (strs.take e.required) = .ok ()) (hp : parse m = .error x) :
+    e.run true parse strs (.utf8 m) fate = (Code.ofErr x, []) := by
+  simp [AsyncEntry.run, AsyncEntry.decode, runEntry, hs, hm, decodeMethod, CStr.asOptStr, hp]
+
+/-- Exactly-once for the new entry points: `Success` ⇒ the callback fires exactly once, whatever becomes
+    of the task (completed with any result — the error arms Backend / Busy / Input / Unsupported /
+    Encryption / NotFound included —, never spawned, cancelled, panicked); any other code ⇒ never. -/
+theorem async_callback_exactly_once {ρ : Type} (e : AsyncEntry) (cbGiven : Bool) (parse : String → Except Err Unit)
+    (strs : List CStr) (method : CStr) (fate : TaskFate ρ) :
+    ((e.run cbGiven parse strs method fate).1 = .success → (e.run cbGiven parse strs method fate).2.length = 1) ∧
+    ((e.run cbGiven parse strs method fate).1 ≠ .success → (e.run cbGiven parse strs method fate).2 = []) := by
+  unfold AsyncEntry.run
+  have h := Lemmas.callback_exactly_once .required cbGiven none (e.decode parse strs method) fate (by simp)
+  refine ⟨fun hs => ?_, h.2⟩
+  cases cbGiven
+  · simp [runEntry] at hs
+  · simpa using h.1 hs
+
+/-- the order of the migration's tests: callback, spec_uri, wallet_name, wallet_key, kdf_level -/
+example : (AsyncEntry.migrateIndySdk.run (ρ := Unit) true (fun _ => .ok ()) [.utf8 "p", .utf8 "n", .utf8 "k", .null] .null (.completed (.ok ()))) = (.input, []) := rfl
+example : (AsyncEntry.migrateIndySdk.run (ρ := Unit) true (fun _ => .ok ()) [.utf8 "p", .utf8 "n", .utf8 "k", .utf8 "RAW"] .null (.completed (.error .backend))).2.length = 1 := by decide
+example : (AsyncEntry.storeCopy.run (ρ := Unit) true (fun _ => .error .unsupported) [.utf8 "u"] (.utf8 "bogus") .cancelled) = (.unsupported, []) := rfl
+
+/-! ### "Busy": a session or scan handle closed while a call on it is in flight -/
+
+/-- `remove` answers `Busy` exactly when the entry is in the map and some in-flight call holds it; it
+    hands the value over exactly when the entry is in the map and nobody holds it; and it reports
+    "not found" exactly when the handle is not (or no longer) in the map. -/
+theorem remove_busy_iff_in_use (e : CEntry) :
+    ((cstep e .remove).2 = .busy ↔ (e.inMap = true ∧ 0 < e.holders)) ∧
+    ((cstep e .remove).2 = .taken ↔ (e.inMap = true ∧ e.holders = 0)) ∧
+    ((cstep e .remove).2 = .notFound ↔ e.inMap = false) := by
+  cases hm : e.inMap <;> by_cases hh : e.holders = 0 <;> simp [cstep, hm, hh] <;> omega
+
+/-- Whatever `remove` answers — value, `Busy`, not found — the handle is out of the map afterwards … -/
+theorem remove_invalidates (e : CEntry) : (cstep e .remove).1.inMap = false := by
+  cases hm : e.inMap <;> by_cases hh : e.holders = 0 <;> simp [cstep, hm, hh]
+
+/-- … and stays out, along every later sequence of events (calls started, calls ending, further closes,
+    the store closing): every call that reaches `borrow` is told `Input`, every close "not found";
+    no later event can get hold of the resource. -/
+theorem removed_handle_stays_invalid (e : CEntry) (evs : List CEv) :
+    (crun (cstep e .remove).1 evs).1.inMap = false ∧
+    ∀ r ∈ (crun (cstep e .remove).1 evs).2, r ≠ .borrowed ∧ r ≠ .taken ∧ r ≠ .busy :=
+  Lemmas.crun_dead evs _ (remove_invalidates e)
+
+/-- every event is answered exactly once (one result per call, one per close) -/
+theorem one_answer_per_event (e : CEntry) (evs : List CEv) : (crun e evs).2.length = evs.length :=
+  Lemmas.crun_length evs e
+
+/-- `askar_session_close`: the callback receives `Busy`, `Success`, or — when a commit was asked for and
+    the session could be taken — the commit's own result, exactly once; `Busy` exactly when the session
+    is in use.  After a `Busy` the resource lives on in the in-flight call and is freed by its end. -/
+theorem session_close_busy_or_own_result (e : CEntry) (commit : Bool) (cr : Except Err Unit) :
+    ((sessionCloseTask e commit cr).2 = .error .busy ∨ (sessionCloseTask e commit cr).2 = .ok () ∨
+        (commit = true ∧ (sessionCloseTask e commit cr).2 = cr)) ∧
+    (e.inMap = true ∧ 0 < e.holders → (sessionCloseTask e commit cr).2 = .error .busy) ∧
+    (sessionCloseTask e commit cr).1.inMap = false ∧
+    (taskFires (ρ := Unit) {} (.completed (sessionCloseTask e commit cr).2)).length = 1 := by
+  refine ⟨?_, ?_, ?_, by simp [taskFires, EnsureCb.resolve, EnsureCb.drop]⟩
+  · cases hm : e.inMap <;> by_cases hh : e.holders = 0 <;> cases commit <;> simp [sessionCloseTask, cstep, hm, hh]
+  · rintro ⟨hm, hh⟩
+    have : e.holders ≠ 0 := by omega
+    simp [sessionCloseTask, cstep, hm, this]
+  · cases hm : e.inMap <;> by_cases hh : e.holders = 0 <;> simp [sessionCloseTask, cstep, hm, hh]
+
+/-- after a `Busy` close the last holder's release frees the resource (no leak); until then it is alive -/
+theorem busy_resource_freed_by_last_release (e : CEntry) (hm : e.inMap = false) :
+    (e.holders = 1 → (cstep e .release).1.alive = false) ∧ (1 < e.holders → (cstep e .release).1.alive = true) := by
+  constructor <;> intro h <;> simp [cstep, CEntry.alive, hm] <;> omega
+
+/-- The race between one in-flight call and the close has exactly three outcomes: the close ran first
+    (the call is told "invalid handle", the close succeeds), in between (`Busy`; the call runs to its own
+    result), or last (both succeed).  This is the set the correspondence run checks observations against. -/
+theorem close_race_outcomes (commit : Bool) :
+    closeRaceOutcomes commit (.ok ()) = [(false, .ok ()), (true, .error .busy), (true, .ok ())] := by
+  cases commit <;> rfl
+
+/-! ### Loggers: one per process, levels validated, nothing after `clear` -/
+
+/-- Once a logger is installed (custom or default) every further installation — custom at any level,
+    or default — is refused with `Input` and changes nothing. -/
+theorem one_logger_per_process (st : LoggerState) (level : Int) (h : st ≠ .none) :
+    (setCustomLogger st level) = (.input, st) ∧ setDefaultLogger st = (.input, st) := by
+  cases st <;> simp_all [setCustomLogger, setDefaultLogger]
+  all_goals (cases levelValid level <;> simp)
+
+/-- A level outside -1..5 is refused by both level-taking entry points, before anything is installed. -/
+theorem invalid_log_level_refused (st : LoggerState) (level : Int) (h : levelValid level = false) :
+    setCustomLogger st level = (.input, st) ∧ setMaxLogLevel level = .input := by
+  simp [setCustomLogger, setMaxLogLevel, h]
+
+/-- No record reaches the C callback above the maximum level, none when the `enabled` callback says no,
+    and none at all after `askar_clear_custom_logger`. -/
+theorem log_record_delivery (maxLevel : Nat) (disabled : Bool) (cb : Option (Nat → Bool)) (lvl : Nat) :
+    (recordDelivered maxLevel disabled cb lvl = true → lvl ≤ maxLevel ∧ disabled = false ∧ ∀ f, cb = some f → f lvl = true) ∧
+    recordDelivered maxLevel true cb lvl = false := by
+  constructor
+  · intro h
+    simp only [recordDelivered, Bool.and_eq_true, decide_eq_true_eq, Bool.not_eq_true'] at h
+    refine ⟨h.1.1, h.1.2, ?_⟩
+    intro f hf; subst hf; exact h.2
+  · simp [recordDelivered]
+
+example : setCustomLogger .none 5 = (.success, .custom) ∧ setCustomLogger .none 6 = (.input, .none) ∧ setDefaultLogger .none = (.success, .default) := by decide
+example : recordDelivered 5 false (some fun l => decide (l ≤ 4)) 5 = false ∧ recordDelivered 5 false none 5 = true := by decide
 
 end Askar.Ffi
